@@ -40,19 +40,20 @@ PROPS["C02"] = {
         K("c04_seal_fresh_nonce_s0_n1000", "envelope window arithmetic, 1000-byte payload", T),
         K("c04_seal_fresh_nonce_s1_n9000", "envelope window arithmetic, 9000-byte payload", T),
         K("c04_seal_fresh_nonce_s2_n65400", "envelope window arithmetic, 65400-byte payload", T),
-        K("c02_recv_genuine_s0_n4", "untouched datagram: accepted iff counter fits 56 bits and sender half is opposite; payload byte-identical"),
-        K("c02_recv_genuine_s1_n1", "same, slot 1, 1-byte payload", T),
-        K("c02_recv_genuine_s2_n8", "same, slot 2, 8-byte payload", T),
-        K("c02_recv_genuine_s3_n2", "same, slot 3, 2-byte payload", T),
-        K("c02_recv_tamper_keyid_s0", "any rewrite of the key-id byte is dropped", role="c02_recv_tamper_keyid"),
-        K("c02_recv_tamper_keyid_s3", "any rewrite of the key-id byte is dropped (slot 3)", T, role="c02_recv_tamper_keyid"),
-        K("c02_recv_tamper_ctr1", "any rewrite of counter byte 1 is dropped"),
-        K("c02_recv_tamper_ctr2", "any rewrite of counter byte 2 is dropped", T),
-        K("c02_recv_tamper_ctr3", "any rewrite of counter byte 3 is dropped", T),
-        K("c02_recv_tamper_ctr4", "any rewrite of counter byte 4 is dropped", T),
-        K("c02_recv_tamper_ctr5", "any rewrite of counter byte 5 is dropped", T),
-        K("c02_recv_tamper_ctr6", "any rewrite of counter byte 6 is dropped", T),
-        K("c02_recv_tamper_ctr7", "any rewrite of counter byte 7 is dropped"),
+        K("c02_recv_genuine_s0_n4", "untouched datagram (slot 0): accepted iff counter fits 56 bits and sender half is opposite; payload byte-identical; seen = counter"),
+        K("c02_recv_genuine_s0_n0", "same, empty payload", T),
+        K("c02_recv_genuine_s0_n8", "same, 8-byte payload", T),
+        K("c02_recv_tamper_keyid_s0", "key-id byte rewritten to any value outside 0..=3 is dropped", role="c02_recv_tamper_keyid"),
+        K("c02_recv_tamper_keyid_s0_to1", "key-id byte rewritten to another slot id (0 -> 1) is dropped (field-sensitive buffer)", T, role="c02_recv_tamper_keyid", kani_args=["-Z", "unstable-options", "--cbmc-args", "--max-field-sensitivity-array-size", "65536"], timeout={"thorough": 2400}),
+        K("c02_recv_tamper_keyid_s0_to3", "key-id 0 -> 3 is dropped (field-sensitive buffer)", T, role="c02_recv_tamper_keyid", kani_args=["-Z", "unstable-options", "--cbmc-args", "--max-field-sensitivity-array-size", "65536"], timeout={"thorough": 2400}),
+        K("c02_recv_tamper_keyid_s3", "key-id 3 -> any value outside 0..=3 is dropped", T, role="c02_recv_tamper_keyid"),
+        K("c02_recv_tamper_ctr1", "counter byte 1 rewritten to any value: accepted iff unchanged (and fits/halves)"),
+        K("c02_recv_tamper_ctr2", "counter byte 2, same", T),
+        K("c02_recv_tamper_ctr3", "counter byte 3, same", T),
+        K("c02_recv_tamper_ctr4", "counter byte 4, same", T),
+        K("c02_recv_tamper_ctr5", "counter byte 5, same", T),
+        K("c02_recv_tamper_ctr6", "counter byte 6, same", T),
+        K("c02_recv_tamper_ctr7", "counter byte 7 rewritten to any value: accepted iff unchanged"),
         K("c02_recv_tamper_ct0", "any rewrite of the first ciphertext byte is dropped"),
         K("c02_recv_tamper_ct3", "any rewrite of the last ciphertext byte is dropped", T),
         K("c02_recv_tamper_tag0", "any rewrite of the first tag byte is dropped", T),
@@ -63,6 +64,16 @@ PROPS["C02"] = {
         K("c02_recv_truncated_n4_cut3", "truncation by three bytes is dropped", T),
         K("c02_recv_truncated_n4_cut5", "truncation below the 24-byte minimum is dropped", T),
         K("c02_recv_truncated_n8_cut24", "truncation to 8 bytes is dropped"),
+        K("c02_recv_genuine_s1_n1", "slot 1: nothing but a fitting, opposite-half datagram is accepted (one direction)", T),
+        K("c02_recv_genuine_s2_n8", "slot 2, same", T),
+        K("c02_recv_genuine_s3_n2", "slot 3, same"),
+        K("c02_recv_tamper_ctr1_s1", "slot 1: rewritten counter byte 1 is dropped", T),
+        K("c02_recv_tamper_ctr7_s3", "slot 3: rewritten counter byte 7 is dropped", T),
+        K("c02_recv_tamper_tag15_s2", "slot 2: rewritten tag byte is dropped", T),
+        K("c02_recv_genuine_s1_n1_fs", "slot 1 exact in both directions (field-sensitive buffer)", T, kani_args=["-Z", "unstable-options", "--cbmc-args", "--max-field-sensitivity-array-size", "65536"], timeout={"thorough": 2400}),
+        K("c02_recv_genuine_s2_n8_fs", "slot 2 exact in both directions (field-sensitive buffer)", T, kani_args=["-Z", "unstable-options", "--cbmc-args", "--max-field-sensitivity-array-size", "65536"], timeout={"thorough": 2400}),
+        K("c02_recv_genuine_s3_n2_fs", "slot 3 exact in both directions (field-sensitive buffer)", T, kani_args=["-Z", "unstable-options", "--cbmc-args", "--max-field-sensitivity-array-size", "65536"], timeout={"thorough": 2400}),
+        K("c02_recv_tamper_ctr1_s1_fs", "slot 1, counter byte 1 exact in both directions (field-sensitive buffer)", T, kani_args=["-Z", "unstable-options", "--cbmc-args", "--max-field-sensitivity-array-size", "65536"], timeout={"thorough": 2400}),
     ],
 }
 
@@ -102,7 +113,8 @@ PROPS["C04"] = {
         K("c04_seal_fresh_nonce_s2_n16", "same, slot 2", T),
         K("c04_seal_fresh_nonce_s3_n1", "same, slot 3", T),
         K("c02_recv_genuine_s0_n4", "a counter that does not fit 56 bits is undecryptable, never wrapped; ends must be in opposite halves"),
-        K("c02_recv_genuine_s3_n2", "same, slot 3", T),
+        K("c02_recv_genuine_s3_n2", "slot 3: only a fitting opposite-half datagram is accepted", T),
+        K("c02_recv_genuine_s3_n2_fs", "slot 3 exact in both directions (field-sensitive buffer)", T, kani_args=["-Z", "unstable-options", "--cbmc-args", "--max-field-sensitivity-array-size", "65536"], timeout={"thorough": 2400}),
         K("c04_new_slot_half_and_start", "new slot: half marker as requested, bytes 1..5 zero, tail unconstrained, window zero"),
         K("c04_rotate_slot0_send", "rotate_key: slot id mod 4, own half, fresh window, becomes sending slot"),
         K("c04_rotate_slot1_recv", "rotate_key: slot 1, receive only keeps the sending slot"),
